@@ -32,6 +32,7 @@ def check(run):
     run.attempt(nullg, run, p, kc)
     run.attempt(unknown, run, p)
     run.attempt(samepath, run, p)
+    run.attempt(nomutate, run, p)
     run.attempt(entry, run, p)
     run.attempt(preset, run, p)
     run.attempt(sameprep, run, p)
@@ -357,6 +358,36 @@ def samepath(run, p):
         run.ob('C09-SAMELOAD', '%s::%s::%s' % (f.rel, f.short, name), same,
                '%s: %d field(s) from the file, %d from the dictionary%s' % (name, len(via_path), len(via_dict), diff), fn=f)
     run.floor('C09-SAMELOAD', n, 4)
+
+
+def nomutate(run, p, rid='C09-NOMUTATE'):
+    """a constraints dictionary handed in by the caller is read, not rewritten"""
+    import copy
+    import datetime as dt
+    run.rule(rid, 'loading constraints from an in-memory dictionary leaves the dictionary as it was: initialize_from_dict, evaluated on '
+                  'dictionaries with date bounds (plain and with a precision), nulls and comments, does not store anything into what it was '
+                  'given - the same dictionary can be used for the next verify_df / detect_df call')
+    f = p.method('DatasetConstraints', 'initialize_from_dict')
+    docs = {
+        'date-bounds': {'fields': {'d': {'type': 'date', 'min': '2020-01-02', 'max': {'value': '2021-03-04 05:06:07', 'precision': 'closed'}},
+                                   'n': {'type': 'int', 'min': 1, 'max': {'value': 5, 'precision': 'fuzzy'}}}},
+        'nulls-and-comments': {'fields': {'d': {'type': 'date', 'min': None, '#c': 1, 'max_nulls': 0}}, 'creation_metadata': {'source': 's'}},
+    }
+    n = 0
+    for name, d in sorted(docs.items()):
+        before = copy.deepcopy(d)
+        fields, meta, warned, err = load_dict(p, d)
+        n += 1
+        same = d == before and repr(d) == repr(before)
+        what = ''
+        if not same:
+            for fn_, fc in d.get('fields', {}).items():
+                for k, v in fc.items():
+                    if repr(v) != repr(before['fields'][fn_].get(k)):
+                        what = ': %s.%s was %r and is now %r' % (fn_, k, before['fields'][fn_].get(k), v)
+        run.ob(rid, '%s::%s::%s' % (f.rel, f.short, name), same, '%s: the dictionary handed in is %s%s' % (
+            name, 'unchanged' if same else 'changed', what), fn=f)
+    run.floor(rid, n, 2)
 
 
 def unknown(run, p):
